@@ -23,6 +23,7 @@ PTRS = {
     'x': Spec('PTR', T1, alias='X._http._tcp.local.'),
     'y': Spec('PTR', T1, alias='Y._http._tcp.local.'),
     'z': Spec('PTR', T2, alias='Z._ipp._tcp.local.'),
+    'z2': Spec('PTR', T1, alias='Z2._http._tcp.local.'),
 }
 TTL_MAX = 2**31 - 1
 
@@ -191,16 +192,17 @@ QUICK = {
     'goodbye': sh(events=[('learn', 'x', 4), ('goodbye', 'x', 1)], steps=4),
     'two-records-close-fixed-ttl': sh(events=[('learn', 'x', 5), ('learn', 'y', 0)], steps=6, ttl_fixed=1125, gap_max=9000),
     'two-records-fixed-ttls': sh(events=[('learn', 'x', 4), ('learn', 'y', 1)], steps=6, ttl_fixed=[1200, 1130], gap_max=9000),
+    'three-records-fixed-ttls': sh(events=[('learn', 'x', 4), ('learn', 'y', 1), ('learn', 'z2', 0)], steps=6, ttl_fixed=[4500, 1200, 1200], gap_max=9000),
+    'learn-goodbye-learn': sh(events=[('learn', 'x', 4), ('goodbye', 'x', 1), ('learn', 'x', 0)], steps=5),
+    'two-records-goodbye-one': sh(events=[('learn', 'x', 4), ('learn', 'y', 0), ('goodbye', 'y', 1)], steps=5),
 }
 THOROUGH = {
+    'two-records-refresh-one': sh(events=[('learn', 'x', 4), ('learn', 'y', 0), ('refresh', 'x', 1)], steps=5),
     'one-record-delay1s': sh(events=[('learn', 'x', 4)], steps=7, delay=1000),
     'one-record-delay60s': sh(events=[('learn', 'x', 4)], steps=7, delay=60000, gap_max=60000),
     'two-records-startup': sh(events=[('learn', 'x', 1), ('learn', 'y', 1)], steps=8),
     'two-records-after-query': sh(events=[('learn', 'x', 4), ('learn', 'y', 2)], steps=5),
     'three-records': sh(types=[T1, T2], events=[('learn', 'x', 4), ('learn', 'y', 0), ('learn', 'z', 1)], steps=3),
-    'learn-goodbye-learn': sh(events=[('learn', 'x', 4), ('goodbye', 'x', 1), ('learn', 'x', 0)], steps=5),
-    'two-records-refresh-one': sh(events=[('learn', 'x', 4), ('learn', 'y', 0), ('refresh', 'x', 1)], steps=5),
-    'two-records-goodbye-one': sh(events=[('learn', 'x', 4), ('learn', 'y', 0), ('goodbye', 'y', 1)], steps=5),
     'two-records-delay60s': sh(events=[('learn', 'x', 4), ('learn', 'y', 1)], steps=5, delay=60000, gap_max=60000),
     'refresh-floor': sh(events=[('learn', 'x', 4), ('refresh', 'x', 0)], steps=5, ttl_min=1),
 }
